@@ -8,9 +8,11 @@
    the symbols on the parser's stack occupy consecutive stretches of the text, everything inside a symbol's value lies inside
    that symbol's stretch, and Coq checks by an abstract run of all 210 productions' actions that every action passes positions
    on in text order).
-   Not proved: exactness of name ranges and nesting of a node's ranges; those are checked on the implementation's output by
+   Also proved: nesting (C04_ranges_nested), siblings disjoint and increasing (C04_siblings_disjoint_increasing), validation's
+   diagnostics ordered (C04_validated_diagnostics_ordered).
+   Not proved: exactness of name and full ranges (a name range covers exactly the name as written); those are checked on the implementation's output by
    text-based oracles and by the exact correspondence with the table-driven model. *)
-From AidlV Require Import Model.LrDriver Spec.Master Proofs.Totality Proofs.RangesOk Proofs.ArityOk Proofs.DiagSites Proofs.RangesOrd.
+From AidlV Require Import Model.LrDriver Spec.Master Proofs.Totality Proofs.RangesOk Proofs.ArityOk Proofs.DiagSites Proofs.RangesOrd Proofs.RangesOrdVal.
 
 Theorem C04_position : forall cx off p,
   mk_pos cx off = Some p ->
@@ -54,12 +56,42 @@ Print Assumptions C04_validation_on_nodes.
    member, argument, direction, type at any depth, transact-code and oneway ranges) and of every syntax diagnostic *)
 Theorem C04_ranges_ordered : forall cx id fr, add_content cx id = Added fr ->
   Forall diag_ord (fr_diags fr) /\ (forall a, fr_ast fr = Some a -> Forall rle (aidl_rs a)).
-Proof. exact add_content_ordered. Qed.
+Proof. intros cx id fr H. destruct (add_content_ordered cx id fr H) as [D T]. split; [exact D|]. intros a E. apply (T a E). Qed.
 Print Assumptions C04_ranges_ordered.
+
+(* nesting: the full range of every node of the stored tree (package, import, declaration, item, member, argument, type at
+   any depth: aidl_nests) contains its name range and every range of every descendant *)
+Theorem C04_ranges_nested : forall cx id fr a, add_content cx id = Added fr -> fr_ast fr = Some a -> Forall nest_ok (aidl_nests a).
+Proof. intros cx id fr a H E. destruct (add_content_ordered cx id fr H) as [_ T]. apply (T a E). Qed.
+Print Assumptions C04_ranges_nested.
+
+(* siblings: in every list of the tree -- imports, forward declarations, the members of the item, the arguments of a method,
+   the parameters of a generic type at any depth (aidl_chains) -- each full range ends before the next one starts *)
+Theorem C04_siblings_disjoint_increasing : forall cx id fr a, add_content cx id = Added fr -> fr_ast fr = Some a ->
+  Forall seq_ok (aidl_chains a).
+Proof. intros cx id fr a H E. destruct (add_content_ordered cx id fr H) as [_ T]. apply (T a E). Qed.
+Print Assumptions C04_siblings_disjoint_increasing.
+Theorem C04_seq_meaning : forall r1 r2 l, seq_ok (r1 :: r2 :: l) <-> (p_off (r_end r1) <= p_off (r_start r2))%N /\ seq_ok (r2 :: l).
+Proof. intros. reflexivity. Qed.
+
+(* ... and the diagnostics validation adds are ordered too (they sit on ranges of the tree) *)
+Theorem C04_validated_diagnostics_ordered : forall cx id fr a defined a' ds,
+  add_content cx id = Added fr -> fr_ast fr = Some a -> validate_file defined a (fr_diags fr) = Ok (a', ds) -> Forall diag_ord ds.
+Proof. exact validated_diags_ordered. Qed.
+Print Assumptions C04_validated_diagnostics_ordered.
 
 Theorem C04_rle_meaning : forall r, rle r <-> (p_off (r_start r) <= p_off (r_end r))%N.
 Proof. intros r. reflexivity. Qed.
-Print Assumptions C04_rle_meaning.
+Theorem C04_nest_meaning : forall f rs, nest_ok (f, rs) <->
+  forall r, In r rs -> (p_off (r_start f) <= p_off (r_start r))%N /\ (p_off (r_end r) <= p_off (r_end f))%N.
+Proof. intros f rs. unfold nest_ok. cbn [fst snd]. rewrite Forall_forall. reflexivity. Qed.
+Print Assumptions C04_nest_meaning.
+
+(* non-vacuity: the nodes of a small document: 2 (package, import) + the item + 2 members with 2 + 3 types/arguments *)
+Example C04_ex_nests : exists a, add_content (Ctx (lit "package p; import q.R; interface I { void f(in List<R> x); const int C = 1; }")
+                              (map (fun i => (1, N.of_nat i + 1)%N) (seq 0 79))) (lit "f") = Added (FR (lit "f") (Some a) []) /\
+  length (aidl_nests a) = 10%nat /\ length (aidl_rs a) = 23%nat /\ map (@length _) (aidl_chains a) = [1; 0; 2; 1; 0; 1; 0; 0]%nat.
+Proof. vm_compute. eexists. split; [reflexivity|split; [reflexivity|split; reflexivity]]. Qed.
 
 (* what pos_ok says, spelled out *)
 Theorem C04_pos_ok_meaning : forall cx p, pos_ok cx p ->
